@@ -413,6 +413,18 @@ def _deferred_reads(root, A, case, stats):
 
     rng = random.Random(case["multi_seed"] ^ 0x77)
     B = A + gen.gen_bytes(rng, 72, long_runs=rng.random() < 0.5)
+    def make(kind, data):
+        if kind == "mmap":
+            st_ = mmap.mmap(-1, len(data))
+            st_.write(data)
+            st_.seek(0)
+            return st_
+        return SimStream(data)
+
+    # the uncut reference is a BytesIO over all the data. Where that reference could not even POSITION the stream at the
+    # address (OverflowError / ValueError for addresses >= 2**63) nothing is demanded: what an unreachable address does is a
+    # matter of the stream kind, not of the truncation (an empty target type reads nothing there on a stream that accepts
+    # any position). An EOFError of the reference means "positioned, but the data is not there": a value is fabricated.
     try:
         addrs, full = _deref_all(root, io.BytesIO(B))
     except Exception:  # noqa: BLE001
@@ -428,21 +440,17 @@ def _deferred_reads(root, A, case, stats):
     cuts |= {rng.randrange(len(A), len(B)) for _ in range(3)}
     for k in sorted(cuts)[:10]:
         for kind in ("sim", "mmap"):
-            if kind == "mmap":
-                if k == 0:
-                    continue
-                st = mmap.mmap(-1, k)
-                st.write(B[:k])
-                st.seek(0)
-            else:
-                st = SimStream(B[:k])
+            if kind == "mmap" and k == 0:
+                continue
             try:
-                addrs2, got = _deref_all(root, st)
+                addrs2, got = _deref_all(root, make(kind, B[:k]))
             except Exception:  # noqa: BLE001
                 continue
             stats.count("evaluations")
             stats.count("fault.eof_behind_structure_" + kind)
             for i, (g, f_) in enumerate(zip(got, full)):
+                if f_[0] == "exc" and f_[1] in ("OverflowError", "ValueError"):
+                    continue
                 if g[0] == "val" and g != f_:
                     raise Violation("never_fabricates", "dereference_on_truncated_data_returns_other_value",
                                     f"data cut at {k} of {len(B)} ({kind} stream; the structure itself ends at {len(A)}): dereferencing pointer #{i} "
